@@ -332,3 +332,5 @@ def run(cx, out):
     out.rule('R05.2', 'derived decoders accept exactly the declared index bytes and read the declared representation (derive corpus of C05)')
     out.rule('R05.5', 'derived in-place decode_into reads the same representation as decode')
     out.absorb(_sub, {'R05.2', 'R05.5'})
+    from . import positive
+    positive.check(cx, out, 'C03')
